@@ -1,0 +1,96 @@
+//! Verification hooks (feature `verif-hooks`, off by default).
+//!
+//! Thin public wrappers around the crate-private compile [Frame], so that external verification
+//! harnesses can reach its constructor and register lookups.
+//! Nothing here is used by the compiler itself.
+
+use super::*;
+
+/// The kind of a function argument, mirroring the crate-private `Arg`
+#[derive(Clone, Copy)]
+pub enum ArgKind {
+    /// A named top-level argument
+    Local(u32),
+    /// A name bound by unpacking a nested argument
+    Unpacked(u32),
+    /// An unnamed argument
+    Placeholder,
+}
+
+/// Result of a register lookup, mirroring the crate-private `AssignedOrReserved`
+#[derive(Clone, Copy, Debug, PartialEq, Eq)]
+pub enum Lookup {
+    /// The id is assigned to the register
+    Assigned(u8),
+    /// The id has reserved the register
+    Reserved(u8),
+    /// The id has no register
+    Unassigned,
+}
+
+/// A compile [Frame] that can be inspected
+pub struct FrameProbe(Frame);
+
+impl FrameProbe {
+    /// Calls `Frame::new`
+    pub fn new(local_count: u8, args: &[ArgKind], captures: &[u32], is_generator: bool) -> Self {
+        let args: Vec<Arg> = args
+            .iter()
+            .map(|arg| match arg {
+                ArgKind::Local(id) => Arg::Local(ConstantIndex::from(*id)),
+                ArgKind::Unpacked(id) => Arg::Unpacked(ConstantIndex::from(*id)),
+                ArgKind::Placeholder => Arg::Placeholder,
+            })
+            .collect();
+        let captures: Vec<ConstantIndex> =
+            captures.iter().map(|id| ConstantIndex::from(*id)).collect();
+        Self(Frame::new(local_count, &args, &captures, None, is_generator))
+    }
+
+    /// The first temporary register
+    pub fn temporary_base(&self) -> u8 {
+        self.0.temporary_base
+    }
+
+    /// The number of local registers that are in use
+    pub fn local_register_count(&self) -> usize {
+        self.0.local_registers.len()
+    }
+
+    /// Calls `Frame::get_local_assigned_register`
+    pub fn get_local_assigned_register(&self, id: u32) -> Option<u8> {
+        self.0.get_local_assigned_register(ConstantIndex::from(id))
+    }
+
+    /// Calls `Frame::get_local_assigned_or_reserved_register`
+    pub fn get_local_assigned_or_reserved_register(&self, id: u32) -> Lookup {
+        match self
+            .0
+            .get_local_assigned_or_reserved_register(ConstantIndex::from(id))
+        {
+            AssignedOrReserved::Assigned(r) => Lookup::Assigned(r),
+            AssignedOrReserved::Reserved(r) => Lookup::Reserved(r),
+            AssignedOrReserved::Unassigned => Lookup::Unassigned,
+        }
+    }
+
+    /// Calls `Frame::reserve_local_register`, `None` on error
+    pub fn reserve_local_register(&mut self, id: u32) -> Option<u8> {
+        self.0.reserve_local_register(ConstantIndex::from(id)).ok()
+    }
+
+    /// Calls `Frame::assign_local_register`, `None` on error
+    pub fn assign_local_register(&mut self, id: u32) -> Option<u8> {
+        self.0.assign_local_register(ConstantIndex::from(id)).ok()
+    }
+
+    /// Calls `Frame::push_register`, `None` on error
+    pub fn push_register(&mut self) -> Option<u8> {
+        self.0.push_register().ok()
+    }
+
+    /// Calls `Frame::registers_used`
+    pub fn registers_used(&self) -> u8 {
+        self.0.registers_used()
+    }
+}
